@@ -96,6 +96,9 @@ CasesSmall ==
                                            ck \in Cookies, ag \in Ages, m \in Methods, st \in Statuses}
   \cup {Case(cc, "tight", "none", ag, "GET", 200) : cc \in {<< <<a>> >> : a \in {d \in Dirs : d.n \in {"max-age", "s-maxage"}}}, ag \in Ages}
 CasesFault == {[Case(cc, "tight", "none", "absent", m, 200) EXCEPT !.fault = "reset"] : cc \in {Good, <<>>}, m \in Methods}
+   (* "drop": the origin has the request and closes the connection without a byte.  Only for methods the HTTP client library
+      itself never sends again (on a re-used connection it does repeat a GET that got no answer at all) *)
+   \cup {[Case(cc, "tight", "none", "absent", m, 200) EXCEPT !.fault = "drop"] : cc \in {Good, <<>>}, m \in {"POST", "PUT"}}
 CasesBig == {Case(cc, "tight", "none", "absent", "GET", 200) : cc \in Lines3}
 
 WithOracle(c) == c @@ [probes |-> Probes(c), mayStore |-> MayStore(c), lifetimes |-> Lts(c)]
@@ -137,7 +140,7 @@ Ok(o) ==
      (* a Range request for a stored key: a response labelled a hit involved no upstream contact, any other exactly one *)
      /\ o.stored => (IF o.range.label = "hit" THEN o.range.contacts = 0 ELSE o.range.contacts = 1)
      (* a request whose forwarding failed was forwarded once, and its client is told so (no silent second attempt) *)
-     /\ c.fault = "reset" => (o.first.status >= 400 /\ ~o.stored)
+     /\ c.fault \in {"reset", "drop"} => (o.first.status >= 400 /\ ~o.stored)
 
 CheckInit == l = 0
 CheckNext == l < Len(Obs) /\ l' = l + 1
